@@ -141,7 +141,7 @@ def run_job(env, spec):
                     job.inconclusive("path %d value-vs-plain: unknown" % pi)
         # ---------------- all guards true: same enforcement (uniqueness of results with the guard wires fixed to 1)
         if t.path.ok and "assert" not in entry.tags and any(lincomb_of(o) is not None for o in flat(t.result)) \
-                and not known_unsound(entry):
+                and not known_unsound(entry) and job.cfg["n"] <= 4:      # (uniqueness at 8 and 16 bits is C02's business)
             st0, _ = H.solve(facts, gall1(), job.timeout)
             if st0 == "sat":
                 sysm = build_system(env, t, job.cfg)
